@@ -180,3 +180,61 @@ def run_history(ctx, params, script_kw, prop, class_name):
         ctx.cover("unawaited-nested-send")
     ctx.note(history)
     return script, am
+
+
+def burst_check(ctx, engine, prop):
+    """Concrete (not symbolic) run that backs one assumption of the symbolic checks: the event queue has no capacity.
+
+    The bounded checks explore at most a handful of pending events; a queue with a capacity C (e.g. deque(maxlen=C))
+    behaves like the unbounded one until C events are pending.  The capacity is read from the live engine object when it
+    exposes one; the run sends capacity+1 (or 1100) events from inside one callback and requires that each one is
+    processed, once, in the order sent."""
+    import asyncio
+
+    from statemachine import State, StateMachine
+
+    from vfw.ctx import Mismatch
+
+    with ctx.notracing():
+        seen = []
+
+        class Burst(StateMachine):
+            a = State(initial=True)
+            tick = a.to.itself()
+
+            if engine == "async":
+                async def on_tick(self, eid):
+                    seen.append(eid)
+                    if eid == 0:
+                        for k in range(1, self.n + 1):
+                            r = self.send("tick", eid=k)
+                            if hasattr(r, "__await__"):
+                                await r
+            else:
+                def on_tick(self, eid):
+                    seen.append(eid)
+                    if eid == 0:
+                        for k in range(1, self.n + 1):
+                            self.send("tick", eid=k)
+
+        sm = Burst()
+        q = getattr(getattr(sm, "_engine", None), "_external_queue", None)
+        cap = getattr(q, "maxlen", None)
+        n = cap + 1 if isinstance(cap, int) and 0 <= cap <= 200000 else 1100
+        sm.n = n
+        if engine == "async":
+            async def go():
+                await sm.send("tick", eid=0)
+
+            asyncio.run(go())
+        else:
+            sm.send("tick", eid=0)
+        want = list(range(n + 1))
+    if seen != want:
+        lost = sorted(set(want) - set(seen))
+        raise Mismatch(
+            f"events-lost-in-burst:{engine}",
+            f"{n} events sent from inside one callback ({'queue capacity ' + str(cap) if cap is not None else 'no capacity visible'}): {len(seen) - 1} were processed; "
+            f"first lost: {lost[:5]}; order kept: {seen == sorted(seen)}",
+        )
+    ctx.cover("burst-all-processed")
